@@ -874,8 +874,27 @@ var c06InstanceScenarios = []verifh.Section{
 	}},
 }
 
+// every rung of the cleaner's retry ladder (1 s, 5 s, 1 min, 5 min, 1 h), replayed on every run: the DEL of an
+// Exec fails, the retries fail up to rung k and the node is back for the retry of rung k+1 — the entry must be
+// gone right then (a ladder that gives up early, skips a rung or waits longer shows as `retry`).
+func c06RetryLadderScenario() verifh.Section {
+	waits := []int{1, 5, 60, 300, 3600}
+	ops := []string{"exec p1,x1 put:1:10:1"}
+	for k := range waits {
+		ops = append(ops, "take p1 j=500", fmt.Sprintf("exec p1,x1 put:1:%d:1 c=1", 11+k))
+		for i := 0; i < k; i++ {
+			ops = append(ops, fmt.Sprintf("tick %d c=1", waits[i]))
+		}
+		if waits[k] > 1 {
+			ops = append(ops, fmt.Sprintf("tick %d c=0", waits[k]-1), "take p1")
+		}
+		ops = append(ops, "tick 1 c=0", "take p1 j=0", "del p1")
+	}
+	return verifh.Section{Cfg: "exp=30000000 nf=3000 stale=report nodes=1 type=node place=-", Ops: ops}
+}
+
 func c06Gen(r *verifh.Rng) []verifh.Section {
-	secs := []verifh.Section{c06StaleScenario, c06ClusterScenario, c06NXScenario}
+	secs := []verifh.Section{c06StaleScenario, c06ClusterScenario, c06NXScenario, c06RetryLadderScenario()}
 	secs = append(secs, c06InstanceScenarios...)
 	secs = append(secs, c06OptionScenarios()...)
 	nsec := verifh.Scale(44, 400)
